@@ -278,6 +278,41 @@ def faults():
                     m.o = owner()
                 return m
             yield (f"owner/sibling-module-signal/{order}/{how}", own_sibling)
+    # ... a COPY of one of the module's own signals, never added to it (copies start out owned by nobody)
+    import copy as _copy
+    for how in ("copy", "deepcopy"):
+        for where in ("direct", "slice", "concat", "anon"):
+            def own_copy(how=how, where=where):
+                m = base()
+                cp = (_copy.copy if how == "copy" else _copy.deepcopy)(m.s2)
+                if where == "direct":
+                    m.i = L()(a=cp, b=m.s1)
+                elif where == "slice":
+                    m.i = L()(a=m.s2, b=cp[0])
+                elif where == "concat":
+                    m.i = L()(a=h.Concat(cp[0], m.s1), b=m.s1)
+                else:
+                    m.c = child_with_bundle(B2())(q=h.AnonymousBundle(x=cp, y=m.s1))
+                return m
+            yield (f"owner/{how}-of-own-signal/{where}", own_copy)
+    # ... two external modules of one domain and name whose definitions contradict each other in the WIDTH of a port only
+    def ext_clash_widths():
+        m = base()
+        Ea = h.ExternalModule(name="ClashW", port_list=[h.Inout(name="a", width=2), h.Inout(name="b")], desc="", domain="f")
+        Eb = h.ExternalModule(name="ClashW", port_list=[h.Inout(name="a", width=4), h.Inout(name="b")], desc="", domain="f")
+        m.x = Ea()(a=m.s2, b=m.s1)
+        m.y = Eb()(a=m.s4, b=m.s1)
+        return m
+    yield ("name/external-clash-widths", ext_clash_widths)
+
+    def ext_clash_params():
+        m = base()
+        Ea = h.ExternalModule(name="ClashP", port_list=[h.Inout(name="a", width=2), h.Inout(name="b")], desc="one", domain="f")
+        Eb = h.ExternalModule(name="ClashP", port_list=[h.Inout(name="b"), h.Inout(name="a", width=2)], desc="one", domain="f")
+        m.x = Ea()(a=m.s2, b=m.s1)
+        m.y = Eb()(a=m.s2, b=m.s1)
+        return m
+    yield ("name/external-clash-port-order", ext_clash_params)
     # ---- no-connect referenced elsewhere
     def nc_ref():
         m = base()
